@@ -44,6 +44,9 @@ type inflight struct {
 	special bool
 
 	waitOn *mOO
+	// waited: the open-owner behind whose transaction the request waited
+	// before the evaluation that is running now (labels only).
+	waited *mOO
 
 	// What the real call did (set by the world before the model runs);
 	// only consulted where the specification admits two answers.
@@ -359,14 +362,43 @@ func (m *model) runOpen(f *inflight) outcome {
 			}
 			f.phase = "enter"
 		case "enter":
+			// Every time the request (re)acquires the server - at its
+			// start and after each wait for a transaction of the
+			// open-owner, during which the server was unlocked - it
+			// starts from scratch: expired clients and unused open-owners
+			// are reclaimed, then the client and the open-owner are
+			// looked up (waitForCurrentTransactionCompletion: "the caller
+			// should retry the lookup of the open-owner state").
 			m.sweep()
 			conf := m.confirmedByShort(op.ClientID)
 			if conf == nil {
+				if f.waited != nil {
+					m.mark("waiter_reentered_client_gone")
+					f.waited = nil
+				}
 				o := f.fin(nfsv4.NFS4ERR_STALE_CLIENTID, "client ID unknown, unconfirmed or expired")
 				o.pure = true
 				return o
 			}
 			oo := conf.oos[op.Owner]
+			if f.waited != nil {
+				switch {
+				case oo == f.waited:
+					m.mark("waiter_reentered_owner_still_there")
+					if oo.unused {
+						m.mark("waiter_reentered_owner_unused_not_yet_expired")
+					}
+				case f.waited.conf != conf:
+					m.mark("waiter_reentered_client_reregistered")
+				default:
+					// The open-owner the request waited for was unused
+					// for a lease period and has been forgotten (with its
+					// files closed); the client is still there. The OPEN
+					// is the first one of a new open-owner.
+					m.mark("waiter_reentered_owner_collected_client_alive")
+				}
+				f.waited = nil
+			}
 			if oo != nil && oo.txn {
 				f.waitOn = oo
 				return outcome{blocked: "wait", why: "another transaction of this open-owner is in progress"}
@@ -389,14 +421,17 @@ func (m *model) runOpen(f *inflight) outcome {
 				}
 				o := m.replayOutcome(f, last, false)
 				if o.replay != nil && last.status == ok {
-					// GETFH follows; the replayed OPEN does not set the
-					// current file handle (diagnostic only, see world).
-					switch f.fh.kind {
-					case "none":
-						o.sts = append(o.sts, nfsv4.NFS4ERR_NOFILEHANDLE)
-					default:
-						o.sts = append(o.sts, ok)
-					}
+					// GETFH follows. The replay of a successful OPEN makes
+					// the file that OPEN opened the current file handle
+					// (opOpen: "Do the same for the replay, so that the
+					// operations that follow it (e.g., GETFH) yield the
+					// same results as they did the first time"), whatever
+					// file handle the retransmitted COMPOUND established
+					// before - also none at all (two OPENs under one seqid
+					// are the same request, RFC 7530 9.1.9). The bytes of
+					// the GETFH result are compared with the first reply's
+					// in world.settle.
+					o.sts = append(o.sts, ok)
 				}
 				return o
 			}
@@ -667,6 +702,20 @@ func (m *model) finishOpenOK(f *inflight) outcome {
 // OPEN_CONFIRM, OPEN_DOWNGRADE, CLOSE.
 // ---------------------------------------------------------------------
 
+// markReentry labels what a request that names its open-owner by an open
+// state ID finds when it reacquires the server after having waited.
+func (m *model) markReentry(f *inflight, of *mOF) {
+	if f.waited == nil {
+		return
+	}
+	if of == nil {
+		m.mark("waiter_reentered_open_state_gone")
+	} else {
+		m.mark("waiter_reentered_owner_still_there")
+	}
+	f.waited = nil
+}
+
 func (m *model) runOpenOwnerOp(f *inflight) outcome {
 	op := f.op
 	if f.phase == "start" {
@@ -682,6 +731,7 @@ func (m *model) runOpenOwnerOp(f *inflight) outcome {
 	}
 	m.sweep()
 	of0 := m.ofByOth[op.Stateid.Other]
+	m.markReentry(f, of0)
 	if of0 == nil {
 		o := f.fin(nfsv4.NFS4ERR_BAD_STATEID, "no open state with this state ID")
 		o.pure = true
@@ -993,6 +1043,7 @@ func (m *model) runLockNew(f *inflight) outcome {
 		return o
 	}
 	of0 := m.ofByOth[op.Stateid.Other]
+	m.markReentry(f, of0)
 	if of0 == nil {
 		o := f.fin(nfsv4.NFS4ERR_BAD_STATEID, "no open state with this state ID")
 		o.pure = true
